@@ -293,14 +293,14 @@ open ExprModel.LocFacts
     node receives.  Operator token for unary / binary / `matches`; the literal's own token for
     bool / nil / number / string; the name token for identifier / function / builtin; the member name
     after `.` for property / method; the `[` for index / slice; the opening bracket for array / map /
-    closure, and also for map pairs and bare map keys; `#` for the pointer.
-    `ConditionalNode` is the one constructor that is NOT followed by `SetLocation` (as the code is today). -/
+    closure, and also for map pairs and bare map keys; `#` for the pointer; the `?` for a conditional
+    (since fix 4de6c8c; before it `ConditionalNode` was the one constructor without `SetLocation`). -/
 theorem node_loc_table :
     Gen.Loc.parserSites.map (fun s => (s.node, roleOf s)) =
       [("MatchesNode", .binaryOp), ("BinaryNode", .binaryOp), ("UnaryNode", .unaryOp), ("PointerNode", .pointerTok),
-       ("ConditionalNode", .none),
-       ("BoolNode", .ownToken), ("BoolNode", .ownToken), ("NilNode", .ownToken), ("FloatNode", .ownToken),
-       ("IntegerNode", .ownToken), ("IntegerNode", .ownToken), ("StringNode", .ownToken),
+       ("ConditionalNode", .questionOp),
+       ("BoolNode", .ownToken), ("BoolNode", .ownToken), ("NilNode", .ownToken), ("IntegerNode", .ownToken),
+       ("FloatNode", .ownToken), ("IntegerNode", .ownToken), ("StringNode", .ownToken),
        ("BuiltinNode", .nameToken), ("FunctionNode", .nameToken), ("IdentifierNode", .nameToken),
        ("ClosureNode", .openBracket), ("ArrayNode", .openBracket),
        ("StringNode", .openBracket), ("PairNode", .openBracket), ("MapNode", .openBracket),
@@ -308,10 +308,10 @@ theorem node_loc_table :
        ("SliceNode", .indexBracket), ("SliceNode", .indexBracket), ("IndexNode", .indexBracket)] := by
   decide +kernel
 
-/-- every `SetLocation` call of parser.go directly follows a constructor and is counted above; the
-    only constructor without one is `ConditionalNode` -/
+/-- every `SetLocation` call of parser.go directly follows a constructor and is counted above; no
+    constructor is left without one -/
 theorem parser_unlocated_constructors :
-    (Gen.Loc.parserSites.filter (fun s => s.locArg == "")).map (·.node) = ["ConditionalNode"] ∧
+    (Gen.Loc.parserSites.filter (fun s => s.locArg == "")).map (·.node) = [] ∧
     (Gen.Loc.parserSites.filter (fun s => s.locArg != "")).length = Gen.Loc.parserSetLocationCalls ∧
     Gen.Loc.parserSites.all (fun s => s.locArg == "" || s.locArg == "token.Location") = true := by
   decide +kernel
@@ -425,12 +425,12 @@ theorem checker_error_nodes :
     Gen.Loc.checkerErrorArgs.length = 37 := by
   decide +kernel
 
-/-- `checker.Check` returns the unlocated `expect` error BEFORE looking at the located first error
-    (as the code is today; see `c13:expect-masks-located-error`) -/
-theorem check_returns_expect_error_first :
+/-- `checker.Check` returns the located first error BEFORE the unlocated `expect` error (since fix
+    76735a9; the other order masked the location: `c13:expect-masks-located-error`) -/
+theorem check_returns_located_error_first :
     Gen.Loc.checkTail =
-      ["if v.expect != reflect.Invalid { switch v.expect { case reflect.Int64, reflect.Float64: if !isNumber(t) { return nil, fmt.Errorf(\"expected %v, but got %v\", v.expect, t) } default: if t.Kind() != v.expect { return nil, fmt.Errorf(\"expected %v, but got %v\", v.expect, t) } } }",
-       "if v.err != nil { return t, v.err.Bind(tree.Source) }",
+      ["if v.err != nil { return t, v.err.Bind(tree.Source) }",
+       "if v.expect != reflect.Invalid { switch v.expect { case reflect.Int64, reflect.Float64: if !isNumber(t) { return nil, fmt.Errorf(\"expected %v, but got %v\", v.expect, t) } default: if t.Kind() != v.expect { return nil, fmt.Errorf(\"expected %v, but got %v\", v.expect, t) } } }",
        "return t, nil"] := by
   decide +kernel
 
@@ -509,17 +509,27 @@ theorem vm_report_is_emitting_node (s : Script) (pp : Nat) (l : Loc) (h : (pp, l
   unfold report
   rw [lookup_of_mem_distinct _ hd pp l (by simpa using h)]
 
-/-- `ConditionalNode` as compiled today (`compile(Cond); JumpIfFalse; Pop; compile(Exp1); Jump; Pop;
-    compile(Exp2)`, the node itself unlocated): a failure at its `JumpIfFalse` (offset 3 here: after a
-    3-byte `Push`) is reported at 0:0, while the failures inside the operands keep their own locations. -/
-theorem conditional_reports_zero_witness :
+/-- `ConditionalNode` as compiled (`compile(Cond); JumpIfFalse; Pop; compile(Exp1); Jump; Pop;
+    compile(Exp2)`) with the node located at its `?` (fix 4de6c8c): a failure at its `JumpIfFalse`
+    (offset 3 here: after a 3-byte `Push`) is reported at the `?`, the failures inside the operands
+    keep their own locations. -/
+theorem conditional_reports_question_mark :
+    let c : Script := .node { line := 1, col := 0 } [.emit 2]
+    let a : Script := .node { line := 1, col := 4 } [.emit 2]
+    let b : Script := .node { line := 1, col := 8 } [.emit 2]
+    let cond : Script := .node { line := 1, col := 2 } [.sub c, .emit 2, .emit 0, .sub a, .emit 2, .emit 0, .sub b]
+    report (compile cond { pc := 0, nodes := [], locs := [] }).locs 3 = { line := 1, col := 2 } ∧
+    report (compile cond { pc := 0, nodes := [], locs := [] }).locs 0 = { line := 1, col := 0 } ∧
+    report (compile cond { pc := 0, nodes := [], locs := [] }).locs 7 = { line := 1, col := 4 } := by
+  decide
+
+/-- as it was before the fix (the node unlocated): the same failure was reported at 0:0 -/
+theorem conditional_unlocated_reported_zero_witness :
     let c : Script := .node { line := 1, col := 0 } [.emit 2]
     let a : Script := .node { line := 1, col := 4 } [.emit 2]
     let b : Script := .node { line := 1, col := 8 } [.emit 2]
     let cond : Script := .node {} [.sub c, .emit 2, .emit 0, .sub a, .emit 2, .emit 0, .sub b]
-    report (compile cond { pc := 0, nodes := [], locs := [] }).locs 3 = { line := 0, col := 0 } ∧
-    report (compile cond { pc := 0, nodes := [], locs := [] }).locs 0 = { line := 1, col := 0 } ∧
-    report (compile cond { pc := 0, nodes := [], locs := [] }).locs 7 = { line := 1, col := 4 } := by
+    report (compile cond { pc := 0, nodes := [], locs := [] }).locs 3 = { line := 0, col := 0 } := by
   decide
 
 /-! ## What remains for the end-to-end statement (`_goal`)
